@@ -1,13 +1,14 @@
     use crate::verif_support::*;
+    use alloc::rc::Rc;
 
-    struct RateTable { from_rate: Option<f64>, to_rate: Option<f64> }
+    struct CurInfo { id: u8, code: String, symbol: String }
+    struct RateTable { rates: [Option<f64>; 2] }
+    impl RateTable { fn get(&self, c: &Rc<CurInfo>) -> Option<&f64> { self.rates[c.id as usize].as_ref() } }
     struct Cfg { currency_rate: RateTable }
-    #[derive(Clone, Copy, PartialEq)] enum Cur { From, To }
-    impl RateTable { fn get(&self, c: &Cur) -> Option<&f64> { match c { Cur::From => self.from_rate.as_ref(), Cur::To => self.to_rate.as_ref() } } }
-    struct M { price: f64 }
-    impl M { fn get_currency(&self) -> Cur { Cur::From } fn get_price(&self) -> f64 { self.price } }
+    struct M(f64, Rc<CurInfo>);
+    impl M { fn get_currency(&self) -> Rc<CurInfo> { self.1.clone() } fn get_price(&self) -> f64 { self.0 } }
 
-    fn slice_convert(config: &Cfg, money: &M, to_currency: Cur) -> core::result::Result<f64, String> {
+    fn slice_convert(config: &Cfg, money: &M, to_currency: Rc<CurInfo>) -> core::result::Result<f64, String> {
         let as_usd = /*@SLICE convert_money.as_usd*/;
         let calculated_price = /*@SLICE convert_money.calculated_price*/;
         Ok(calculated_price)
@@ -23,8 +24,14 @@
         let rt: f64 = kani::any();
         let has_f: bool = kani::any();
         let has_t: bool = kani::any();
-        let cfg = Cfg { currency_rate: RateTable { from_rate: if has_f { Some(rf) } else { None }, to_rate: if has_t { Some(rt) } else { None } } };
-        let got = slice_convert(&cfg, &M { price }, Cur::To);
+        let cfg = Cfg { currency_rate: RateTable { rates: [if has_f { Some(rf) } else { None }, if has_t { Some(rt) } else { None }] } };
+        // the source is USD itself or another currency (the rate table, not the code, decides the factor)
+        let from_usd: bool = kani::any();
+        let from = Rc::new(CurInfo { id: 0, code: if from_usd { "USD".to_string() } else { "TRY".to_string() }, symbol: "$".to_string() });
+        let to = Rc::new(CurInfo { id: 1, code: "EUR".to_string(), symbol: "e".to_string() });
+        let money = M(price, from.clone());
+        let got = slice_convert(&cfg, &money, to.clone());
+        kani::cover!(from_usd && has_f && has_t, "COVER:source_is_usd");
         if !has_f || !has_t {
             assert!(got.is_err(), "OBL:missing_rate_is_an_error_value");
         } else {
@@ -37,4 +44,5 @@
                 assert!(same_f64(got, div_call(0).2 * rt), "OBL:price_over_source_rate_times_target_rate");
             }
         }
+        core::mem::forget(cfg); core::mem::forget(money); core::mem::forget(from); core::mem::forget(to);
     }
